@@ -120,6 +120,10 @@ func c13Scenarios(tier string) []*mcrt.Scenario {
 						if obs.err != obs.lastErr {
 							return &mcrt.Failure{Kind: "returned-error-is-not-the-one-read", Detail: fmt.Sprintf("returned %v, source last gave %v; faults=%s", obs.err, obs.lastErr, faults)}
 						}
+						// "... or another read error occurs, the handler stops": not one more Read
+						if obs.src.readsAfterOther > 0 {
+							return &mcrt.Failure{Kind: "kept-reading-after-another-read-error", Detail: fmt.Sprintf("%d reads after the source had reported %q; faults=%s", obs.src.readsAfterOther, errOther, faults)}
+						}
 						transient := obs.err == io.EOF || strings.Contains(obs.err.Error(), "i/o timeout")
 						if c.timeout == 0 && obs.transientAtReturn > 1 {
 							// tolerance zero: the first EOF / timeout must stop the handler
